@@ -61,6 +61,7 @@ type Ctl struct {
 	FillG     string
 	fillIdle  int
 	parkedEv  map[string]string
+	idleRun   int // idle ticks (of any graph) since the last event that was not an idle tick
 }
 
 const fillPatience = 1500 // scheduler ticks granted to a worker that should be able to take a free slot
@@ -88,8 +89,25 @@ func (c *Ctl) Emit(e Event, park bool) {
 		c.mu.Unlock()
 		return
 	}
-	if e.Ev == "idle" && len(c.Log) > 0 && c.Log[len(c.Log)-1].Ev == "idle" && c.Log[len(c.Log)-1].G == e.G {
-		c.Log[len(c.Log)-1].N++ // run-length compression of consecutive idle ticks
+	merged := false
+	if e.Ev == "idle" {
+		// run-length compression of idle ticks: the trailing run of idle entries holds one entry per graph (two graphs
+		// that both have nothing to do tick alternately)
+		c.idleRun++
+		for k := len(c.Log) - 1; k >= 0 && c.Log[k].Ev == "idle"; k-- {
+			if c.Log[k].G == e.G {
+				c.Log[k].N++
+				merged = true
+				break
+			}
+		}
+	} else {
+		c.idleRun = 0
+	}
+	if len(c.Log) > 400000 {
+		c.Runaway = true // no run of the harness comes anywhere near this many events
+	}
+	if merged {
 	} else {
 		e.norm()
 		if e.Ev == "idle" {
@@ -187,7 +205,14 @@ func (c *Ctl) IdleStall(n int) bool {
 		return false
 	}
 	last := c.Log[len(c.Log)-1]
-	if last.Ev != "idle" || last.N < n {
+	if last.Ev != "idle" {
+		return false
+	}
+	graphs := 0
+	for k := len(c.Log) - 1; k >= 0 && c.Log[k].Ev == "idle"; k-- {
+		graphs++
+	}
+	if c.idleRun < n*graphs {
 		return false
 	}
 	for k := range c.parked {
